@@ -86,8 +86,39 @@ impl PartialEqSpecImpl for ColorSpec {
 }
 #[verifier::external_body]
 pub struct Color { _p: u8 }
+impl Copy for Color {}
+impl Clone for Color { #[verifier::external_body] fn clone(&self) -> (r: Self) ensures r == *self { unimplemented!() } }
+/// termcolor::ColorChoice, by its four variants
+#[derive(Clone, Copy)]
+pub enum ColorChoice { Always, AlwaysAnsi, Auto, Never }
+/// the colour state of a ColorSpec built by ColorSpec::new() / changed by set_fg / set_underline (termcolor, opaque)
+pub uninterp spec fn cid_new() -> int;
+pub uninterp spec fn cid_fg(c: int, col: Option<Color>) -> int;
+pub uninterp spec fn cid_ul(c: int, u: bool) -> int;
+impl ColorSpec {
+    #[verifier::external_body]
+    pub fn new() -> (r: ColorSpec) ensures cid(r) == cid_new() { unimplemented!() }
+    // assumed (termcolor): a spec with a foreground colour differs from a fresh one
+    #[verifier::external_body]
+    pub fn set_fg(&mut self, color: Option<Color>) -> (r: &mut ColorSpec)
+        ensures cid(*final(self)) == cid_fg(cid(*old(self)), color), color is Some ==> cid_fg(cid(*old(self)), color) != cid_new()
+    { unimplemented!() }
+    #[verifier::external_body]
+    pub fn set_underline(&mut self, yes: bool) -> (r: &mut ColorSpec)
+        ensures cid(*final(self)) == cid_ul(cid(*old(self)), yes)
+    { unimplemented!() }
+}
+/// stand-ins (R9) for `std::io::stdout()` and `option.unwrap_or_default()` on the date format
 #[verifier::external_body]
-pub struct ColorChoice { _p: u8 }
+pub fn verif_stdout() -> Stdout { unimplemented!() }
+#[verifier::external_body]
+pub fn verif_unwrap_or_default(o: Option<DateTimePattern_string>) -> (r: DateTimePattern_string)
+    ensures o is Some ==> r == o.unwrap(), o is None ==> r.bytes().len() == 0
+{ unimplemented!() }
+/// stand-in (R9) for the constant COLOR_DEFAULT (termcolor::Color::White), by value
+pub uninterp spec fn color_default() -> Color;
+#[verifier::external_body]
+pub fn verif_color_default() -> (r: Color) ensures r == color_default() { unimplemented!() }
 #[verifier::external_body]
 pub struct FixedOffset { _p: u8 }
 #[verifier::external_body]
@@ -102,6 +133,9 @@ impl WriteStd for StandardStream {
     fn flush(&mut self) -> (r: Result<()>) { unimplemented!() }
 }
 impl StandardStream {
+    // assumed (termcolor): a fresh stream has no colour set, i.e. the state of ColorSpec::new()
+    #[verifier::external_body]
+    pub fn stdout(choice: ColorChoice) -> (r: StandardStream) ensures r.cur() == cid_new() { unimplemented!() }
     // assumed (termcolor): set_color writes only an escape sequence -- no payload byte -- and makes `spec` the active colour
     #[verifier::external_body]
     pub fn set_color(&mut self, spec: &ColorSpec) -> (r: Result<()>)
@@ -1335,6 +1369,28 @@ impl PrinterLogMessage {
         &&& self.col_ok()
     }
 
+//@ifunit PRN
+//@cut fn path=src/printer/printers.rs impl=PrinterLogMessage name=new ret=r
+//@replace "std::io::stdout()" "verif_stdout()"
+//@replace "termcolor::StandardStream::stdout(color_choice)" "StandardStream::stdout(color_choice)"
+//@replace "Some(COLOR_DEFAULT)" "Some(verif_color_default())"
+//@replace "prepend_date_format.unwrap_or_default()" "verif_unwrap_or_default(prepend_date_format)"
+//@spec
+    ensures
+        // C13: the printer is set up with exactly what was asked for: the file-name field is on iff a name was given, the datetime
+        // field iff a non-empty format was given; the name, format and zone are the ones passed in; nothing is buffered; the colour
+        // bookkeeping starts consistent with the stream
+        r.config_ok(),
+        r.prepend_file == prepend_file, r.prepend_date_offset == prepend_date_offset,
+        prepend_date_format is Some ==> r.prepend_date_format == prepend_date_format.unwrap(),
+        prepend_date_format is None ==> r.prepend_date_format.bytes().len() == 0,
+        r.do_color == !(color_choice is Never),
+        cid(r.color_spec_default) == cid_fg(cid_new(), Some(color_default())),
+        cid(r.color_spec_sysline) == cid_fg(cid_new(), Some(color_logmessage)),
+        cid(r.color_spec_datetime) == cid_ul(cid_fg(cid_new(), Some(color_logmessage)), true),
+//@mutate "do_prepend_file: prepend_file.is_some()," "do_prepend_file: prepend_file.is_none(),"
+//@end
+//@endif
 //@ifunit PRN
     // ---- assumed until brought under contract: the colour variants write the same payload (C13 "pure decoration")
     // and return its length; only escape sequences are added.  Listed in the evidence as assumptions.
